@@ -109,6 +109,14 @@ func runC06(r *Runner, tier string, rng *Rng) {
 		}
 	}
 	flush()
+	// live clock (after the process has made many expiry checks): stamps 1-2 s ahead of the moment
+	// they are written are checked 3.2 s later, next to stamps that are still ahead then
+	for k := 0; k < 2; k++ {
+		offs := []any{1000, 2000, -1000, 30000, 60000, 3600000, 2000, 15000, 1000, -5000, 86400000, 2000, 1000, 20000, 2000, 1000}
+		r.St.Count("live_clock")
+		batch = append(batch, Case{Op: "expiry", Args: map[string]any{"strings": []any{}, "live_offsets_ms": offs, "wait_ms": 3200, "now_ns": int64(0)}, Feat: fmt.Sprintf("live%d", k)})
+		flush()
+	}
 	defer runC06Pipeline(r, tier, rng)
-	r.St.Rule = "expiry strings: valid stamps from year 0000 to 9999, stamps 10 s .. 400 days around now on either side, forms Go accepts beyond the layout (1-digit hour, fractional seconds), other date layouts, calendar edge cases, single-character mutations; 16 strings per evaluation; compared: parse verdict (through ValidateMetablock) and VerifyLayoutExpiration verdict against the clock. Class = batch verdict vector."
+	r.St.Rule = "expiry strings: valid stamps from year 0000 to 9999, stamps 10 s .. 400 days around now on either side, forms Go accepts beyond the layout (1-digit hour, fractional seconds), other date layouts, calendar edge cases, single-character mutations; stamps written 1-2 s ahead of the clock and checked 3.2 s later in the same process (the clock must be read at every check); 16 strings per evaluation; compared: parse verdict (through ValidateMetablock) and VerifyLayoutExpiration verdict against the clock. Class = batch verdict vector."
 }
